@@ -313,6 +313,12 @@ def run_e1(ctx, roots_pattern, rule='E1-panic', stop_pattern=None, wide=False, e
         bodies.setdefault(bid, n)
     nsites = 0
     ext = set()
+    # direct callers (inside the reachable set) of every body, for caller-scoped dispositions
+    callers = collections.defaultdict(set)
+    for n in par:
+        for e in cg.out.get(n, ()):
+            if e.dst in par and e.kind in ('call', 'cha', 'generic', 'forward'):
+                callers[db.instances[e.dst].path].add(db.instances[n].path)
     for n in par:
         for bb, c in db.instances[n].calls.items():
             if c[1] < 0 and c[0] == 'item':
@@ -334,6 +340,14 @@ def run_e1(ctx, roots_pattern, rule='E1-panic', stop_pattern=None, wide=False, e
             if res == 'definite':
                 r.fail(rule, s.key, '%s: %s' % (s.kind, why), detail='reached via ' + path, loc=s.loc)
                 continue
+            if d is not None and d.get('callers'):
+                # the reason on file speaks about the callers of this function: a new caller voids it
+                allowed = [re.compile(c) for c in d['callers']]
+                extra = sorted(c for c in callers.get(b.path, ()) if not any(rx.search(c) for rx in allowed))
+                if extra:
+                    r.fail(rule, s.key, '%s: the disposition covers the callers %s but the function is now also called from %s' % (s.kind, d['callers'], extra[0]),
+                           detail='reason on file: %s; reached via %s' % (d['reason'], path), loc=s.loc)
+                    continue
             if d is not None:
                 prem = d.get('premises', [])
                 if prem:
